@@ -71,43 +71,31 @@ Definition has_unbound_orphan (s : ostate) : bool :=
 Definition strip_state (s : ostate) : ostate :=
   mkOS (map (strip_node s) (s_nodes s)) (s_apps s) (s_queues s) (s_total s)
        (s_nallocs s) (s_nph s) (s_nres s) (s_foreign s) (s_completed s) (s_rejected s) (s_ugm s).
-(* judged with the unbound orphans off the node books: the queue that was charged for such an allocation may still
-   carry it, so a queue may exceed the sum over its applications / children by at most the orphans' total; root vs
-   nodes and the drained check are not judged *)
-Definition orphan_total (s : ostate) : res :=
-  fold_left (fun acc x => addTo acc (oa_res x))
-            (flat_map (fun n => filter (unbound_orphan s) (on_allocs n)) (s_nodes s)) [].
-Definition within (extra : res) (actual : res) (expected : list res) : bool :=
-  forallb (fun k => let d := (getz actual k - sumz expected k)%Z in (0 <=? d)%Z && (d <=? getz extra k)%Z)
-          (keys actual ++ res_keys expected).
-Definition queue_books_upto (extra : res) (s : ostate) (q : oqueue) : bool :=
-  res_nonneg (q_alloc q) && res_nonneg (q_pending q) &&
-  if q_leaf q then
-    within extra (q_alloc q) (map ap_allocated (apps_of_queue s (q_id q)) ++ map ap_phalloc (apps_of_queue s (q_id q))) &&
-    res_is_sum (q_pending q) (map ap_pending (apps_of_queue s (q_id q)))
-  else
-    within extra (q_alloc q) (map q_alloc (children_of s (q_id q))) &&
-    res_is_sum (q_pending q) (map q_pending (children_of s (q_id q))).
-Definition orphan_state_kinds (s0 : ostate) : list N :=
-  let s := strip_state s0 in
-  (if nodes_ledger_ok s then [] else [1402]) ++
-  (if forallb app_books_ok (s_apps s) then [] else [1411]) ++
-  (if forallb (queue_books_upto (orphan_total s0) s) (s_queues s) then [] else [1412]) ++
-  (if forallb (fun n => forallb (node_alloc_owned s) (on_allocs n)) (s_nodes s) then [] else [1413]) ++
-  (if forallb (fun a => forallb (app_alloc_on_node s) (ap_allocs a)) (s_apps s) then [] else [1414]).
+(* the same window seen from the application: it lists an allocation whose node id is unset and that no node lists
+   (the node was removed, or the allocation was unwound, between tryAllocate and PartitionContext.allocate) *)
+Definition app_unbound (s : ostate) (x : oalloc) : bool := (oa_node x =? 0) && negb (app_alloc_on_node s x).
+Definition has_unbound (s : ostate) : bool :=
+  has_unbound_orphan s || existsb (fun a => existsb (app_unbound s) (ap_allocs a)) (s_apps s).
 
-(* drift kinds: a queue ledger, the node <-> application cross reference of an allocation, root vs nodes, drained *)
-Definition drift_kind (k : N) : bool := (k =? 1412) || (k =? 1413) || (k =? 1415) || (k =? 1416).
+(* drift: a queue ledger, the node -> application direction of the cross reference, root vs nodes, drained *)
+Definition drift (s : ostate) : bool :=
+  negb (forallb (queue_books_ok s) (s_queues s)) ||
+  negb (forallb (fun n => forallb (node_alloc_owned s) (on_allocs n)) (s_nodes s)) ||
+  negb (root_matches_nodes s) || negb (drained_ok s).
 
-(* drift window (known finding C14-concurrent-ledger-drift): on the unchanged tree concurrent application removal,
-   allocation release / update and configuration reload racing with the scheduling loop leave queue ledgers and
-   node allocation lists in disagreement with the live applications at a rate of a few percent of the runs (one
-   root cause is confirmed: C14-alloc-leak-app-removed). These kinds are classified 1451. Judged strictly in
-   every run: node ledgers (1402: allocated / occupied / available against the allocations the node lists),
-   application books (1411) and application allocations missing on their node (1414). *)
+(* Final-state judgement.
+   strict in every run: 1402 node ledgers (with the unbound orphans taken off the books), 1411 application books,
+   1414 an application lists an allocation WITH a node id that the node does not list;
+   1450 known finding C14-alloc-leak-app-removed (signature: allocation with unset node id listed on one side only);
+   1451 known finding C14-concurrent-ledger-drift: on the unchanged tree application removal, allocation release /
+   update, node removal and configuration reload racing with the scheduling loop leave queue ledgers and node
+   allocation lists in disagreement with the live applications in a few percent of the runs. *)
 Definition final_state_check (s : ostate) : list N :=
-  let ks := if has_unbound_orphan s then 1450 :: orphan_state_kinds s else final_state_kinds s in
-  (if existsb drift_kind ks then [1451] else []) ++ filter (fun k => negb (drift_kind k)) ks.
+  (if has_unbound s then [1450] else []) ++
+  (if nodes_ledger_ok (strip_state s) then [] else [1402]) ++
+  (if forallb app_books_ok (s_apps s) then [] else [1411]) ++
+  (if forallb (fun a => forallb (fun x => app_unbound s x || app_alloc_on_node s x) (ap_allocs a)) (s_apps s) then [] else [1414]) ++
+  (if drift s then [1451] else []).
 
 Definition cycle_report_ok (c : conc_case) : bool :=
   match cc_gocycle c with
